@@ -7,7 +7,7 @@ enum(start)@iterable, const:value, first element = INSERT verb, for sub-selects 
 looked-up table."""
 BINDINGS = {
     ('adjpositions', '<row produced when>'): [
-        ('INSERT', 'Sense.adjposition?', 'over param:entries', 'over _local_senses(LexicalEntry.senses)'),
+        ('INSERT', 'Sense.adjposition?', 'over param:entries', 'over _local_senses(LexicalEntry.senses?=[])'),
     ],
     ('adjpositions', 'adjposition'): [
         ('INSERT', 'Sense.adjposition'),
@@ -16,7 +16,7 @@ BINDINGS = {
         ('INSERT', 'senses', 'Sense.id', 'lid(Sense.id)'),
     ],
     ('counts', '<row produced when>'): [
-        ('INSERT', 'over param:entries', 'over LexicalEntry.senses', 'over Sense.counts?=[]'),
+        ('INSERT', 'over param:entries', 'over LexicalEntry.senses?=[]', 'over Sense.counts?=[]'),
     ],
     ('counts', 'count'): [
         ('INSERT', 'Count.value'),
@@ -76,7 +76,7 @@ BINDINGS = {
         ('INSERT', 'null'),
     ],
     ('forms', '<row produced when>'): [
-        ('INSERT', 'not (external(Form))', 'over _batch(param:entries)', 'over param:entries', 'over enumerate(LexicalEntry.forms, const:1)'),
+        ('INSERT', 'not (external(Form))', 'over _batch(param:entries)', 'over param:entries', 'over enumerate(LexicalEntry.forms?=[], const:1)'),
         ('INSERT', 'not (external(LexicalEntry))', 'over _batch(param:entries)', 'over param:entries'),
     ],
     ('forms', 'entry_rowid'): [
@@ -99,7 +99,7 @@ BINDINGS = {
     ],
     ('forms', 'rank'): [
         ('INSERT', 'const:0'),
-        ('INSERT', 'enum(1)@LexicalEntry.forms'),
+        ('INSERT', 'enum(1)@LexicalEntry.forms?=[]'),
     ],
     ('forms', 'rowid'): [
         ('INSERT', 'null'),
@@ -110,7 +110,7 @@ BINDINGS = {
     ],
     ('ili_statuses', '<row produced when>'): [
         ('INSERT',),
-        ('INSERT OR IGNORE', "over sorted(set(gen[var:info.status?='active' over list(expr:_ili.load(source))]))"),
+        ('INSERT OR IGNORE', "over sorted(set(gen[each(list(expr:_ili.load(source))).status?='active' over list(expr:_ili.load(source))]))"),
     ],
     ('ili_statuses', 'rowid'): [
         ('INSERT', 'null'),
@@ -146,7 +146,7 @@ BINDINGS = {
         ('INSERT OR IGNORE', 'ili_statuses', "const:'presupposed'"),
     ],
     ('lexfiles', '<row produced when>'): [
-        ('INSERT OR IGNORE', "over sorted(set[Synset.lexfile?='' over _local_synsets(Lexicon|LexiconExtension.synsets) if Synset.lexfile?])"),
+        ('INSERT OR IGNORE', "over sorted(set[Synset.lexfile?='' over _local_synsets(Lexicon|LexiconExtension.synsets?=[]) if Synset.lexfile?])"),
     ],
     ('lexfiles', 'name'): [
         ('INSERT OR IGNORE', "Synset.lexfile?=''"),
@@ -231,13 +231,13 @@ BINDINGS = {
     ],
     ('pronunciations', '<row produced when>'): [
         ('INSERT', 'LexicalEntry.lemma?', 'over _batch(param:entries)', 'over param:entries', 'over LexicalEntry.lemma.pronunciations?=[]'),
-        ('INSERT', 'over _batch(param:entries)', 'over param:entries', 'over enumerate(LexicalEntry.forms, const:1)', 'over Form.pronunciations?=[]'),
+        ('INSERT', 'over _batch(param:entries)', 'over param:entries', 'over enumerate(LexicalEntry.forms?=[], const:1)', 'over Form.pronunciations?=[]'),
     ],
     ('pronunciations', 'audio'): [
         ('INSERT', 'Pronunciation.audio?'),
     ],
     ('pronunciations', 'form_rowid'): [
-        ('INSERT', 'forms', 'LexicalEntry.id', 'lid(LexicalEntry.id)', 'Form.id?', '(const:-1 if external(Form) else enum(1)@LexicalEntry.forms)'),
+        ('INSERT', 'forms', 'LexicalEntry.id', 'lid(LexicalEntry.id)', 'Form.id?', '(const:-1 if external(Form) else enum(1)@LexicalEntry.forms?=[])'),
         ('INSERT', 'forms', 'LexicalEntry.id', 'lid(LexicalEntry.id)', 'const:None', 'const:0'),
     ],
     ('pronunciations', 'notation'): [
@@ -268,7 +268,7 @@ BINDINGS = {
         ('INSERT', 'synsets', 'Synset.id', 'lexid'),
     ],
     ('relation_types', '<row produced when>'): [
-        ('INSERT OR IGNORE', 'over sorted(set(gen[Relation.relType over Lexicon|LexiconExtension.synsets , Synset.relations?=[]]))'),
+        ('INSERT OR IGNORE', 'over sorted(set(gen[Relation.relType over Lexicon|LexiconExtension.synsets?=[] , Synset.relations?=[]]))'),
     ],
     ('relation_types', 'rowid'): [
         ('INSERT OR IGNORE', 'null'),
@@ -340,10 +340,10 @@ BINDINGS = {
         ('INSERT', 'relation_types', 'Relation.relType'),
     ],
     ('senses', '<row produced when>'): [
-        ('INSERT', 'over _batch(param:entries)', 'over param:entries', 'over enumerate(_local_senses(LexicalEntry.senses))'),
+        ('INSERT', 'over _batch(param:entries)', 'over param:entries', 'over enumerate(_local_senses(LexicalEntry.senses?=[]))'),
     ],
     ('senses', 'entry_rank'): [
-        ('INSERT', 'enum(0)@_local_senses(LexicalEntry.senses)'),
+        ('INSERT', 'enum(0)@_local_senses(LexicalEntry.senses?=[])'),
     ],
     ('senses', 'entry_rowid'): [
         ('INSERT', 'entries', 'LexicalEntry.id', 'lid(LexicalEntry.id)'),
@@ -364,7 +364,7 @@ BINDINGS = {
         ('INSERT', 'null'),
     ],
     ('senses', 'synset_rank'): [
-        ('INSERT', 'ssrank.get(Sense.id, DEFAULT_MEMBER_RANK)'),
+        ('INSERT', 'dict[each(Synset.members?=[]): enum(0)@Synset.members?=[] over _local_synsets(param:synsets) , enumerate(Synset.members?=[])].get(Sense.id, DEFAULT_MEMBER_RANK)'),
     ],
     ('senses', 'synset_rowid'): [
         ('INSERT', 'synsets', 'Sense.synset', 'lid(Sense.synset)'),
@@ -439,7 +439,7 @@ BINDINGS = {
         ('INSERT', 'null'),
     ],
     ('syntactic_behaviour_senses', '<row produced when>'): [
-        ('INSERT', 'over dict[SyntacticBehaviour.subcategorizationFrame: SyntacticBehaviour.senses?=[] over param:synbhrs]', 'over expr:framemap[frame]'),
+        ('INSERT', 'over dict[SyntacticBehaviour.subcategorizationFrame: SyntacticBehaviour.senses?=[] over param:synbhrs]', 'over dict[SyntacticBehaviour.subcategorizationFrame: SyntacticBehaviour.senses?=[] over param:synbhrs][SyntacticBehaviour.subcategorizationFrame]'),
     ],
     ('syntactic_behaviour_senses', 'sense_rowid'): [
         ('INSERT', 'senses', 'each(SyntacticBehaviour.senses?=[])', 'lid(each(SyntacticBehaviour.senses?=[]))'),
@@ -464,13 +464,13 @@ BINDINGS = {
     ],
     ('tags', '<row produced when>'): [
         ('INSERT', 'LexicalEntry.lemma?', 'over _batch(param:entries)', 'over param:entries', 'over LexicalEntry.lemma.tags?=[]'),
-        ('INSERT', 'over _batch(param:entries)', 'over param:entries', 'over enumerate(LexicalEntry.forms, const:1)', 'over Form.tags?=[]'),
+        ('INSERT', 'over _batch(param:entries)', 'over param:entries', 'over enumerate(LexicalEntry.forms?=[], const:1)', 'over Form.tags?=[]'),
     ],
     ('tags', 'category'): [
         ('INSERT', 'Tag.category'),
     ],
     ('tags', 'form_rowid'): [
-        ('INSERT', 'forms', 'LexicalEntry.id', 'lid(LexicalEntry.id)', 'Form.id?', '(const:-1 if external(Form) else enum(1)@LexicalEntry.forms)'),
+        ('INSERT', 'forms', 'LexicalEntry.id', 'lid(LexicalEntry.id)', 'Form.id?', '(const:-1 if external(Form) else enum(1)@LexicalEntry.forms?=[])'),
         ('INSERT', 'forms', 'LexicalEntry.id', 'lid(LexicalEntry.id)', 'const:None', 'const:0'),
     ],
     ('tags', 'tag'): [
